@@ -79,6 +79,25 @@ func main() {
 	os.MkdirAll(dir, 0755)
 	opts := &EncOpts{NonnilParams: *nonnil}
 	switch cmd {
+	case "rooted":
+		w.immutableArr("")
+		for _, f := range w.FuncList {
+			if re != nil && re.MatchString(funcKey(f)) {
+				for _, rw := range w.Mod.rootedWrites(f) {
+					name := rw.Root
+					if strings.HasPrefix(rw.Root, "fv:") {
+						var i int
+						fmt.Sscanf(rw.Root, "fv:%d", &i)
+						name = "free variable " + f.FreeVars[i].Name()
+					} else if strings.HasPrefix(rw.Root, "p:") {
+						var i int
+						fmt.Sscanf(rw.Root, "p:%d", &i)
+						name = "parameter " + f.Params[i].Name()
+					}
+					fmt.Printf("%-50s %-28s %s %s\n", funcKey(f), name, shortPos(w.Fset, rw.Instr.Pos()), rw.How)
+				}
+			}
+		}
 	case "globals":
 		w.immutableArr("")
 		gw := w.Mod.computeGlobalWrites()
@@ -199,4 +218,3 @@ func truncate(s string, n int) string {
 	}
 	return s
 }
-
